@@ -186,7 +186,7 @@ def oracle(replicas, origs, rc, rows, outtree):
 
 def run(oc, tier, seed, model_available, escalate):
     rng = random.Random(seed * 86028121 + 7)
-    n = 120 if tier == "quick" else 1500
+    n = 250 if tier == "quick" else 3000
     if escalate:
         n *= 3
     d = os.path.join(common.scratch(), "c07")
